@@ -20,6 +20,8 @@ PROPERTY = "C14"
 LEVEL = "exploration"
 CORE = "dclab.rtdc_dataset.core:RTDCBase.basins_retrieve"
 N = 4
+# events of a mapped referrer: out of order, one basin event twice
+MAPPED = [2, 0, 0, 3]
 FEATS = ["deform", "area_um", "bright_avg", "pos_x", "pos_y", "size_x"]
 TIMEOUT = 20
 
@@ -64,7 +66,7 @@ def write_graph(d, nfiles, edges, ids=None, mapped=(), loc="abs",
                 if features_empty and (a, b) in features_empty:
                     kw["basin_feats"] = []
                 if (a, b) in mapped:
-                    kw["basin_map"] = np.array([0, 0, 2, 3], dtype=np.uint64)
+                    kw["basin_map"] = np.array(MAPPED, dtype=np.uint64)
                 if remote_host is not None and (a, b) in remote_host:
                     hw.store_basin(f"b{a}{b}", "remote", "http",
                                    [f"http://vf.example/f{b}.rtdc"],
@@ -137,7 +139,7 @@ def reference(nfiles, edges, ids, mapped, usable=lambda a, b: True,
                 if a != cur or not usable(a, b):
                     continue
                 r = rule(a, b)
-                m = np.array([0, 0, 2, 3]) if (a, b) in mapped else \
+                m = np.array(MAPPED) if (a, b) in mapped else \
                     np.arange(N)
                 if r is None:
                     # everything behind an unchecked edge is unconstrained
